@@ -503,20 +503,20 @@ class Lexer(object):
     t_regex_REGEX = r"""(?:
         /                       # opening slash
         # First character is..
-        (?: [^*\\/[]            # anything but * \ / or [
-        |   \\.                 # or an escape sequence
+        (?: [^*\\/[\n\r\u2028\u2029]     # anything but * \ / [ or line terminator
+        |   \\[^\n\r\u2028\u2029]        # or an escape sequence
         |   \[                  # or a class, which has
-                (?: [^\]\\]     # anything but \ or ]
-                |   \\.         # or an escape sequence
+                (?: [^\]\\\n\r\u2028\u2029]     # anything but \ ] or line terminator
+                |   \\[^\n\r\u2028\u2029]        # or an escape sequence
                 )*              # many times
             \]
         )
         # Following characters are same, except for excluding a star
-        (?: [^\\/[]             # anything but \ / or [
-        |   \\.                 # or an escape sequence
+        (?: [^\\/[\n\r\u2028\u2029]      # anything but \ / [ or line terminator
+        |   \\[^\n\r\u2028\u2029]        # or an escape sequence
         |   \[                  # or a class, which has
-                (?: [^\]\\]     # anything but \ or ]
-                |   \\.         # or an escape sequence
+                (?: [^\]\\\n\r\u2028\u2029]     # anything but \ ] or line terminator
+                |   \\[^\n\r\u2028\u2029]        # or an escape sequence
                 )*              # many times
             \]
         )*                      # many times
